@@ -166,6 +166,7 @@ def register(E):
         for c, v, s_after in results:
             def eff(st2, s_after=s_after):
                 st2.heap = dict(s_after.heap)
+                st2.notes = s_after.notes
                 for fid, fr in s_after.fmap.items():
                     if fid in st2.fmap: st2.fmap[fid].locs = dict(fr.locs)
             out.append((c, v, eff))
@@ -220,6 +221,7 @@ def register(E):
 
     def adopt_state(st2, s_after):
         st2.heap = dict(s_after.heap)
+        st2.notes = s_after.notes
         for fid, fr in s_after.fmap.items():
             if fid in st2.fmap: st2.fmap[fid].locs = dict(fr.locs)
 
@@ -369,6 +371,7 @@ def register(E):
         for c, vals, s_after in acc + done:
             def eff(st2, s_after=s_after):
                 st2.heap = dict(s_after.heap)
+                st2.notes = s_after.notes
                 for fid, fr in s_after.fmap.items():
                     if fid in st2.fmap: st2.fmap[fid].locs = dict(fr.locs)
             if isinstance(vals, Panic):
@@ -382,6 +385,7 @@ def register(E):
                 # turn into a plain SeqIter and re-dispatch the op
                 def eff2(st2, s_after=s_after, vals=vals):
                     st2.heap = dict(s_after.heap)
+                    st2.notes = s_after.notes
                     for fid, fr in s_after.fmap.items():
                         if fid in st2.fmap: st2.fmap[fid].locs = dict(fr.locs)
                     E.store(st2, a[0], Obj('SeqIter', (tuple(vals), 0))) if isinstance(a[0], Ref) else None
@@ -389,6 +393,7 @@ def register(E):
                     if vals:
                         def eff3(st2, s_after=s_after, vals=vals):
                             st2.heap = dict(s_after.heap)
+                            st2.notes = s_after.notes
                             for fid, fr in s_after.fmap.items():
                                 if fid in st2.fmap: st2.fmap[fid].locs = dict(fr.locs)
                             E.store(st2, a[0], Obj('SeqIter', (tuple(vals), 1)))
@@ -547,6 +552,7 @@ def register_maps(E):
         for c, kept, s_after in acc:
             def eff(st2, kept=kept, s_after=s_after):
                 st2.heap = dict(s_after.heap)
+                st2.notes = s_after.notes
                 for fid, fr in s_after.fmap.items():
                     if fid in st2.fmap: st2.fmap[fid].locs = dict(fr.locs)
                 E.store(st2, a[0], mk(kind, kept))
@@ -671,6 +677,7 @@ def register_indexset(E):
 
     def adopt(st2, s_after):
         st2.heap = dict(s_after.heap)
+        st2.notes = s_after.notes
         for fid, fr in s_after.fmap.items():
             if fid in st2.fmap: st2.fmap[fid].locs = dict(fr.locs)
 
